@@ -321,7 +321,9 @@ def run(rep, tier):
         if diff:
             rep.fail('R12.3', 'nameMatch copies|' + ','.join(sorted(diff)), b.where(), 'decision features differ between %s and %s: %s' % (a.where(), b.where(), diff))
         else:
-            raise AnalysisBroken('nameMatch copies differ structurally but no decision feature differs; review %s vs %s' % (a.where(), b.where()))
+            # a refactoring of one copy: what decides a match (guards, skip form, suffix stripping, length guard, prefix and dot test, step order) agrees
+            rep.ok('R12.3', 'nameMatch copies', 'bodies differ structurally but every decision feature agrees: %s' % sorted(va))
+            rep.note('R12.3: %s and %s are no longer structurally identical; compared on decision features only' % (a.where(), b.where()))
 
     # ---- R12.4
     sites = 0
